@@ -176,6 +176,8 @@ func vNameStartByte(c byte) bool {
 //@   ensures old(tk.pos) <= tk.pos
 //@   let p0 = old(tk.pos)
 //@   ensures[progress] p0 < len(tk.src) && (vNameStartByte(tk.src[p0]) || tk.src[p0] == '-' || (tk.src[p0] == '\\' && !(p0 + 1 < len(tk.src) && tk.src[p0+1] == '\n'))) ==> p0 < tk.pos
+// CSS Syntax 3 §4.3.8 / §4.3.11: inside a name a backslash is an escape only if it is not followed by a newline
+//@   call consumeEscape#1 assert[valid-escape] tk.pos >= 1 && tk.src[tk.pos-1] == '\\' && !(tk.pos < len(tk.src) && tk.src[tk.pos] == '\n')
 //@   loop 1 invariant old(tk.pos) <= startPos && startPos <= tk.pos && tk.pos <= L && L == len(tk.src)
 //@   loop 1 decreases L - tk.pos
 
